@@ -4,7 +4,9 @@ package main
 // carddav.Client) and ONE caldav.Handler (carddav.Handler) — whose ServeHTTP builds a
 // fresh adapter per request, caldav/server.go:77-82, carddav/server.go:74-79 — over an
 // in-memory backend of the harness (one mutex around a map of encoded objects; nothing
-// decoded is ever shared).  Goroutine i works in its own calendar / address book.  The
+// decoded is ever shared).  Goroutine i is USER i: its requests carry the user in their
+// context, the backend derives principal (/u<i>/), home set and collections from it, so
+// that requests of different users overlap on the one handler.  The
 // canonical answers are recorded concurrently and again alone; the verdict is the
 // property's own predicate "concurrently = alone" (Concurrent.dav_spec_ok).
 //
@@ -90,6 +92,18 @@ func parseDWorkload(x hx.Sx) dworkload {
 	return w
 }
 
+// the user a request belongs to travels in its context (as an authenticating
+// middleware would put it there); the backend doubles derive principal and home set
+// from it.  Goroutine i is user i.
+type userKey struct{}
+
+func userOf(ctx context.Context) int {
+	if u, ok := ctx.Value(userKey{}).(int); ok {
+		return u
+	}
+	return -1
+}
+
 func notFound() error { return webdav.NewHTTPError(http.StatusNotFound, errors.New("not found")) }
 
 // ---- in-memory backends
@@ -147,14 +161,22 @@ var fixedTime = time.Date(2024, 1, 2, 3, 4, 5, 0, time.UTC)
 
 type memCal struct{ *memStore }
 
-func (b memCal) CurrentUserPrincipal(context.Context) (string, error) { return "/u/", nil }
-func (b memCal) CalendarHomeSetPath(context.Context) (string, error)  { return "/u/cal/", nil }
+func (b memCal) CurrentUserPrincipal(ctx context.Context) (string, error) {
+	return fmt.Sprintf("/u%d/", userOf(ctx)), nil
+}
+func (b memCal) CalendarHomeSetPath(ctx context.Context) (string, error) {
+	return fmt.Sprintf("/u%d/cal/", userOf(ctx)), nil
+}
 func (b memCal) CreateCalendar(context.Context, *caldav.Calendar) error {
 	return webdav.NewHTTPError(http.StatusForbidden, errors.New("fixed set of calendars"))
 }
-func (b memCal) ListCalendars(context.Context) ([]caldav.Calendar, error) {
+func (b memCal) ListCalendars(ctx context.Context) ([]caldav.Calendar, error) {
 	var l []caldav.Calendar
+	home := fmt.Sprintf("/u%d/", userOf(ctx))
 	for _, c := range b.colls {
+		if !strings.HasPrefix(c, home) {
+			continue
+		}
 		l = append(l, caldav.Calendar{Path: c, Name: c, SupportedComponentSet: []string{"VEVENT"}})
 	}
 	return l, nil
@@ -210,17 +232,25 @@ func (b memCal) DeleteCalendarObject(_ context.Context, p string) error {
 
 type memCard struct{ *memStore }
 
-func (b memCard) CurrentUserPrincipal(context.Context) (string, error)   { return "/u/", nil }
-func (b memCard) AddressBookHomeSetPath(context.Context) (string, error) { return "/u/card/", nil }
+func (b memCard) CurrentUserPrincipal(ctx context.Context) (string, error) {
+	return fmt.Sprintf("/u%d/", userOf(ctx)), nil
+}
+func (b memCard) AddressBookHomeSetPath(ctx context.Context) (string, error) {
+	return fmt.Sprintf("/u%d/card/", userOf(ctx)), nil
+}
 func (b memCard) CreateAddressBook(context.Context, *carddav.AddressBook) error {
 	return webdav.NewHTTPError(http.StatusForbidden, errors.New("fixed set of address books"))
 }
 func (b memCard) DeleteAddressBook(context.Context, string) error {
 	return webdav.NewHTTPError(http.StatusForbidden, errors.New("fixed set of address books"))
 }
-func (b memCard) ListAddressBooks(context.Context) ([]carddav.AddressBook, error) {
+func (b memCard) ListAddressBooks(ctx context.Context) ([]carddav.AddressBook, error) {
 	var l []carddav.AddressBook
+	home := fmt.Sprintf("/u%d/", userOf(ctx))
 	for _, c := range b.colls {
+		if !strings.HasPrefix(c, home) {
+			continue
+		}
 		l = append(l, carddav.AddressBook{Path: c, Name: c})
 	}
 	return l, nil
@@ -313,8 +343,8 @@ func summaryOf(cal *ical.Calendar) string {
 var calAllProps = caldav.CalendarCompRequest{Name: "VCALENDAR", AllProps: true, AllComps: true}
 
 func runCalOp(c *caldav.Client, i int, o dop) string {
-	ctx := context.Background()
-	coll := fmt.Sprintf("/u/cal/c%d/", i)
+	ctx := context.WithValue(context.Background(), userKey{}, i)
+	coll := fmt.Sprintf("/u%d/cal/c/", i)
 	obj := func(k int) string { return fmt.Sprintf("%se%d.ics", coll, k) }
 	render := func(l []caldav.CalendarObject, err error) string {
 		if err != nil {
@@ -351,8 +381,20 @@ func runCalOp(c *caldav.Client, i int, o dop) string {
 			return code(err)
 		}
 		return "deleted"
+	case "whoami":
+		p, err := c.FindCurrentUserPrincipal(ctx)
+		if err != nil {
+			return code(err)
+		}
+		return "principal " + p
+	case "home":
+		p, err := c.FindCalendarHomeSet(ctx, fmt.Sprintf("/u%d/", i))
+		if err != nil {
+			return code(err)
+		}
+		return "home " + p
 	default:
-		cals, err := c.FindCalendars(ctx, "/u/cal/")
+		cals, err := c.FindCalendars(ctx, fmt.Sprintf("/u%d/cal/", i))
 		if err != nil {
 			return code(err)
 		}
@@ -376,8 +418,8 @@ func newCard(uid, name string) vcard.Card {
 var cardAllProps = carddav.AddressDataRequest{AllProp: true}
 
 func runCardOp(c *carddav.Client, i int, o dop) string {
-	ctx := context.Background()
-	coll := fmt.Sprintf("/u/card/c%d/", i)
+	ctx := context.WithValue(context.Background(), userKey{}, i)
+	coll := fmt.Sprintf("/u%d/card/c/", i)
 	obj := func(k int) string { return fmt.Sprintf("%sv%d.vcf", coll, k) }
 	render := func(l []carddav.AddressObject, err error) string {
 		if err != nil {
@@ -414,8 +456,20 @@ func runCardOp(c *carddav.Client, i int, o dop) string {
 			return code(err)
 		}
 		return "deleted"
+	case "whoami":
+		p, err := c.FindCurrentUserPrincipal(ctx)
+		if err != nil {
+			return code(err)
+		}
+		return "principal " + p
+	case "home":
+		p, err := c.FindAddressBookHomeSet(ctx, fmt.Sprintf("/u%d/", i))
+		if err != nil {
+			return code(err)
+		}
+		return "home " + p
 	default:
-		abs, err := c.FindAddressBooks(ctx, "/u/card/")
+		abs, err := c.FindAddressBooks(ctx, fmt.Sprintf("/u%d/card/", i))
 		if err != nil {
 			return code(err)
 		}
@@ -434,8 +488,8 @@ func davRunner(w dworkload) func(i int, o dop) string {
 	st := &memStore{objs: map[string][]byte{}}
 	if w.proto == "caldav" {
 		for i := range w.clients {
-			st.colls = append(st.colls, fmt.Sprintf("/u/cal/c%d/", i))
-			st.put(fmt.Sprintf("/u/cal/c%d/e0.ics", i), mustEncodeCal(newEvent(fmt.Sprintf("u%d-0", i), "initial")))
+			st.colls = append(st.colls, fmt.Sprintf("/u%d/cal/c/", i))
+			st.put(fmt.Sprintf("/u%d/cal/c/e0.ics", i), mustEncodeCal(newEvent(fmt.Sprintf("u%d-0", i), "initial")))
 		}
 		h := &caldav.Handler{Backend: memCal{st}}
 		c, err := caldav.NewClient(inprocClient{h}, "http://cdav.invalid/")
@@ -445,10 +499,10 @@ func davRunner(w dworkload) func(i int, o dop) string {
 		return func(i int, o dop) string { return runCalOp(c, i, o) }
 	}
 	for i := range w.clients {
-		st.colls = append(st.colls, fmt.Sprintf("/u/card/c%d/", i))
+		st.colls = append(st.colls, fmt.Sprintf("/u%d/card/c/", i))
 		var buf bytes.Buffer
 		vcard.NewEncoder(&buf).Encode(newCard(fmt.Sprintf("u%d-0", i), "initial"))
-		st.put(fmt.Sprintf("/u/card/c%d/v0.vcf", i), buf.Bytes())
+		st.put(fmt.Sprintf("/u%d/card/c/v0.vcf", i), buf.Bytes())
 	}
 	h := &carddav.Handler{Backend: memCard{st}}
 	c, err := carddav.NewClient(inprocClient{h}, "http://cdav.invalid/")
@@ -537,7 +591,11 @@ func davWorkloads(rng *hx.Rand, n int) []dworkload {
 			m := 1 + rng.Intn(12)
 			for x := 0; x < m; x++ {
 				o := dop{k: rng.Intn(4), k2: rng.Intn(4), summary: rng.Pick([]string{"a", "b", "meeting", "Zoë", ""})}
-				switch rng.Intn(10) {
+				switch rng.Intn(14) {
+				case 10, 11:
+					o.kind = "whoami"
+				case 12, 13:
+					o.kind = "home"
 				case 0, 1, 2:
 					o.kind = "put"
 				case 3, 4:
